@@ -230,13 +230,12 @@ def f_str(f):
 def implies(g, c, inv=()):
     """(ok, counterexample) — does g entail c for every valuation of the atoms that satisfies the
     option invariants `inv` (pairs (a, b) meaning options.a ⇒ options.b)?"""
-    extra = set()
+    atoms = f_atoms(g) | f_atoms(c)
+    # an invariant matters as soon as one of its two flags occurs
     for a, b in inv:
-        extra |= {("opt", a), ("opt", b)}
-    atoms = sorted(f_atoms(g) | f_atoms(c))
-    atoms += sorted(x for x in extra if x not in atoms and (("opt", x[1]) in atoms or True) and
-                    any(y in atoms for y in extra))
-    atoms = sorted(set(atoms))
+        if ("opt", a) in atoms or ("opt", b) in atoms:
+            atoms |= {("opt", a), ("opt", b)}
+    atoms = sorted(atoms)
     if len(atoms) > 16:
         return False, "guard too complex to decide (%d atoms)" % len(atoms)
     for bits in range(1 << len(atoms)):
